@@ -14,6 +14,7 @@ import warnings
 import traceback
 
 RTOL = 1e-9
+_CMP_LOG = None     # trace of the scalar comparisons of one clause (conditioning test)
 
 
 def _import_target(qual):
@@ -25,6 +26,7 @@ def _import_target(qual):
 
 
 _SHARED = {}
+_SHEET_FIRST_ROW = {}     # written sheet -> index of its first data row (after header and comment row)
 
 
 def build(desc):
@@ -91,6 +93,7 @@ def build(desc):
             pd.DataFrame([desc['headers']] + rows).to_excel(
                 w, index=False, header=False)
         _TMPFILES.append(path)
+        _SHEET_FIRST_ROW[path] = 2 if desc.get('comment_row', True) else 1
         return path
     raise ValueError('desc kind %r' % k)
 
@@ -140,7 +143,7 @@ def _numeric(v):
     if isinstance(v, (int, float)):
         return math.log1p(abs(float(v))) * (1 if v >= 0 else -1)
     if v is None:
-        return 0.0
+        return 0.731        # a keyword given as None differs from an absent one
     if isinstance(v, dict):
         return sum(_numeric(x) for x in v.values()) + 0.01 * len(v)
     if isinstance(v, (list, tuple)):
@@ -179,7 +182,23 @@ def approx_eq(a, b, rtol=None):
         return bool(a) == bool(b) if isinstance(a, (bool, int, float, np.bool_)) \
             and isinstance(b, (bool, int, float, np.bool_)) else a == b
     if isinstance(a, str) or isinstance(b, str):
-        return a == b
+        if a == b or not (isinstance(a, str) and isinstance(b, str)):
+            return a == b
+        # texts that differ only in the last digits of printed floats (the
+        # clause computes the number in another association than the code)
+        import re
+        num = r'[-+]?(?:\d+\.\d*|\.\d+|\d+)(?:[eE][-+]?\d+)?'
+        na, nb = re.findall(num, a), re.findall(num, b)
+        if len(na) != len(nb) or re.sub(num, '#', a) != re.sub(num, '#', b):
+            return False
+        for x, y in zip(na, nb):
+            if x == y:
+                continue
+            if not any(ch in x + y for ch in '.eE'):
+                return False        # integers are compared exactly
+            if not approx_eq(float(x), float(y), rtol):
+                return False
+        return True
     if isinstance(a, dict) and isinstance(b, dict):
         if set(a) != set(b):
             return False
@@ -203,11 +222,15 @@ def approx_eq(a, b, rtol=None):
         a = float(a)
         b = float(b)
         if math.isnan(a) or math.isnan(b):
-            return False
-        if math.isinf(a) or math.isinf(b):
-            return a == b
-        return abs(a - b) <= rtol * max(abs(a), abs(b)) + 1e-12 * rtol / 1e-9 \
-            if max(abs(a), abs(b)) > 1e-300 else True
+            ok = False
+        elif math.isinf(a) or math.isinf(b):
+            ok = a == b
+        else:
+            ok = abs(a - b) <= rtol * max(abs(a), abs(b)) + 1e-12 * rtol / 1e-9 \
+                if max(abs(a), abs(b)) > 1e-300 else True
+        if _CMP_LOG is not None and len(_CMP_LOG) < 400:
+            _CMP_LOG.append([a, b, bool(ok)])
+        return ok
     try:
         return bool(a == b)
     except Exception:
@@ -225,6 +248,7 @@ class _Rewrite(ast.NodeTransformer):
                             args=[node.left, node.comparators[0]],
                             keywords=[])
             if isinstance(node.ops[0], ast.NotEq):
+                call.func = ast.Name('_ne_eq', ast.Load())
                 return ast.UnaryOp(ast.Not(), call)
             return call
         if len(node.ops) > 1 and all(isinstance(o, ast.Eq) for o in node.ops):
@@ -302,12 +326,24 @@ def clause_eq(a, b):
     return approx_eq(a, b)
 
 
+def _ne_eq(a, b):
+    # the equality test inside `a != b` (a guard, not an asserted equality):
+    # not part of the comparison trace
+    global _CMP_LOG
+    saved, _CMP_LOG = _CMP_LOG, None
+    try:
+        return clause_eq(a, b)
+    finally:
+        _CMP_LOG = saved
+
+
 def eval_clause(text, env, pre_env):
     tree = ast.parse(text.strip(), mode='eval')
     tree = _Rewrite().visit(tree)
     ast.fix_missing_locations(tree)
     g = dict(env)
     g['_eq'] = clause_eq
+    g['_ne_eq'] = _ne_eq
     g['_D'] = _D
 
     def _old(src):
@@ -316,6 +352,7 @@ def eval_clause(text, env, pre_env):
         ast.fix_missing_locations(t2)
         g2 = dict(pre_env)
         g2['_eq'] = clause_eq
+        g2['_ne_eq'] = _ne_eq
         g2['_D'] = _D
         return eval(compile(t2, '<old>', 'eval'), g2)
     g['_old'] = _old
@@ -333,7 +370,7 @@ def _cell(path, i, j):
     import pandas as pd
     if path not in _SHEETS:
         _SHEETS[path] = pd.read_excel(path, header=None)
-    v = _SHEETS[path].iloc[i + 2, j]
+    v = _SHEETS[path].iloc[i + _SHEET_FIRST_ROW.get(path, 2), j]
     return v.strip() if isinstance(v, str) else v
 
 
@@ -509,12 +546,21 @@ def run_job(job):
     post_env['warned'] = out['warned']
     post_env['outcome'] = out['outcome']
     cl = []
+    global _CMP_LOG
+    traces = []
     for c in job.get('clauses', []):
+        if job.get('trace_cmp'):
+            _CMP_LOG = []
         try:
             cl.append(bool(eval_clause(c, post_env, pre_env)))
         except Exception as e:
             cl.append('error: %s: %s' % (type(e).__name__, str(e)[:200]))
+        if job.get('trace_cmp'):
+            traces.append(_CMP_LOG)
+            _CMP_LOG = None
     out['clauses'] = cl
+    if job.get('trace_cmp'):
+        out['cmp'] = traces
     if job.get('post_state'):
         out['post_state'] = {n: summarize(args[n]) for n in job['order']}
     return out
